@@ -94,6 +94,16 @@ func (inputs *ReusableWorkflowMetadataInputs) UnmarshalYAML(n *yaml.Node) error 
 	return nil
 }
 
+// dropNilEntries removes the entries whose values are nil. go-yaml does not call UnmarshalYAML of a map type
+// for a node tagged `!!null` explicitly and decodes a null value in such mapping into a nil pointer.
+func dropNilEntries[V any](m map[string]*V) {
+	for k, v := range m {
+		if v == nil {
+			delete(m, k)
+		}
+	}
+}
+
 func yamlNodeIsTrue(n *yaml.Node) bool {
 	var b bool
 	if n.Kind != yaml.ScalarNode || n.Decode(&b) != nil {
@@ -375,6 +385,9 @@ func parseReusableWorkflowMetadata(src []byte) (*ReusableWorkflowMetadata, error
 				if err := n.Content[i+1].Decode(&m); err != nil {
 					return nil, err
 				}
+				dropNilEntries(m.Inputs)
+				dropNilEntries(m.Outputs)
+				dropNilEntries(m.Secrets)
 				return &m, nil
 			}
 		}
